@@ -22,14 +22,21 @@ def initial_state(data_bits: List[int], ancilla_bits: Optional[List[int]] = None
 
 
 def description(spec: dict, d: int):
-    """spec: None | {'chain': length, 'refocus': bool} | {'layout': name, 'involved': [qubit names], 'refocus': bool}"""
+    """spec: None | {'chain': length, 'refocus': bool} | {'layout': name, 'involved': [qubit names], 'refocus': bool, 'exclude_edges': [[q, q], ...]}"""
     if spec is None:
         return None
     if 'chain' in spec:
         return RepetitionCodeDescription.from_chain(length=spec['chain'], qubit_refocusing=spec.get('refocus', True))
     layout = LAYOUTS[spec['layout']]()
-    return RepetitionCodeDescription.from_connectivity(involved_qubit_ids=[QubitIDObj(n) for n in spec['involved']], connectivity=layout,
-                                                       qubit_refocusing=spec.get('refocus', True))
+    involved = [QubitIDObj(n) for n in spec['involved']]
+    base = RepetitionCodeDescription.from_connectivity(involved_qubit_ids=involved, connectivity=layout, qubit_refocusing=spec.get('refocus', True))
+    if spec.get('exclude_edges'):
+        # composite description: the base description with some of its gates left out
+        from qce_circuit.library.repetition_code.circuit_components import CompositeRepetitionCodeDescription
+        from qce_circuit.connectivity.intrf_channel_identifier import EdgeIDObj
+        return CompositeRepetitionCodeDescription(_base_description=base, _qubit_index_map={q: i for i, q in enumerate(involved)}, _connectivity=layout,
+                                                  _exclude_gate_edge_ids=[EdgeIDObj(QubitIDObj(a), QubitIDObj(b)) for a, b in spec['exclude_edges']])
+    return base
 
 
 def build(spec: dict) -> DeclarativeCircuit:
